@@ -22,14 +22,20 @@ LEVEL_TEXT = (
     "each named feature planted in each syntactic position), every problem of the C01 grammar and every problem of the "
     "example and up_test_cases corpora, the feature set returned by the real `.kind` property is compared with the features an "
     "independent walk over the problem's read-only accessors finds; problems are also re-evaluated after mutations through the "
-    "public API (every evaluation judged against the from-scratch oracle); held on the executions observed only."
+    "public API (every evaluation judged against the from-scratch oracle); in the thorough tier the repository's own test-suite "
+    "is re-run with a class-level pass-through monitor on the `kind` property of the five problem classes, so that every kind "
+    "the tests, compilers, engines and writers compute is judged by the same oracle; held on the executions observed only."
 )
 LEVEL_NOTE = (
     "Trusted: CPython, the read-only accessors of the model classes, the public constructors used by the generator, "
     "vk/ref/kindx.py (oracle). Features whose definition depends on analysis are demanded only in their weakest form "
     "(STATIC_ or non-static variant; INT_ or REAL_ variant); Implies/Iff as disjunction, fluents in increase/decrease values, "
     "types the problem does not list among its user_types, undefined initial values of multi-agent problems and of hidden "
-    "contingent fluents are not judged (counted as dontcare:*)."
+    "contingent fluents are not judged (counted as dontcare:*). Suite monitor (vk/mon/universal.install_kind): trusted are "
+    "also pytest/xdist and the monkey-patched property wrappers; only the outermost evaluation is judged (ContingentProblem.kind "
+    "calls Problem.kind), the oracle runs under a re-entrancy guard, at most 500 evaluations per test are judged (the rest is "
+    "counted as suite:M-kind:over_budget_not_judged), evaluations that raise are counted, not judged; the tests' own "
+    "pass/fail is not a verdict."
 )
 RULE = (
     "cases = (a) plant cases: case i plants entry i mod |TABLE| of vk/checks/c10_positions.py (problem class, syntactic "
@@ -45,7 +51,9 @@ RULE = (
     "problems declare, in part of the cases, same-named fluents of different type / signature in the two agents and add the "
     "agents in either order. distinct_nontrivial = distinct (feature, 'class:position') pairs the oracle observed in judged "
     "problems (plus distinct (mutation, feature, position) gains); the run is inconclusive unless every pair of the table "
-    "was observed at least twice."
+    "was observed at least twice. (e) thorough tier only: one run of unified_planning/test under M-kind; one evaluation = one "
+    "outermost `.kind` evaluation judged (suite:M-kind:judged); witnesses carry the test id (\"suite\": true) and are replayed by "
+    "re-running that test file under the monitor; the run is inconclusive if the suite ran and fewer than 1500 evaluations were judged."
 )
 ASSUMPTIONS = [
     "vk/ref/kindx.py implements the feature table of docs/problem_representation.rst for the features named in the statement; accessors of the model classes do not lie",
@@ -82,7 +90,16 @@ def plan(tier, seed):
     return specs
 
 
+SUITE = (("kind",), "M-kind:judged")
+
+
 def run_shard(spec, res):
+    if spec["tier"] == "thorough" and spec["shard"] == 1:
+        # the repository's own test-suite re-run with the universal monitor M-kind installed (DESIGN §4): every `.kind` the
+        # tests (and the compilers / engines / writers they drive) evaluate is judged against the from-scratch extractor
+        from vk.mon import suite as _suite
+
+        _suite.feed(res, PROPERTY, _suite.run_suite(SUITE[0]), SUITE[1])
     for key in spec["cases"]:
         run_case(key, spec["tier"], res)
     if spec.get("corpus"):
@@ -90,6 +107,11 @@ def run_shard(spec, res):
 
 
 def replay(witness, res):
+    if witness.get("suite"):
+        from vk.mon import suite as _suite
+
+        _suite.replay_suite(res, PROPERTY, SUITE[0], SUITE[1], witness)
+        return
     if witness.get("corpus"):
         run_corpus(witness.get("tier", "quick"), res, only=witness["corpus"])
     else:
@@ -392,6 +414,9 @@ def thresholds(m):
     rej = sum(v for k, v in c.items() if k.startswith("rejected_"))
     if rej * 2 > max(1, m["evaluations"]):
         out.append("more than half of the cases were rejected")
+    from vk.mon import suite as _suite
+
+    out.extend(_suite.thresholds(c, SUITE[1], 1500))
     return out
 
 
